@@ -246,7 +246,12 @@ func (conn *Conn) send(call *Call) {
 	if err != nil {
 		conn.mutex.Lock()
 		registered := conn.pending[seq] == call
-		delete(conn.pending, seq)
+		if !isStreaming {
+			// A stream message is sent under its stream's number and was
+			// never registered: the entry under that number belongs to the
+			// stream and keeps routing what the peer sends.
+			delete(conn.pending, seq)
+		}
 		if openStreaming {
 			delete(conn.streams, seq)
 		}
